@@ -8,7 +8,7 @@ g = vxlib.generate(f"{vxlib.VERIF}/contracts/{unit}.vrs", with_mutants="--mutant
 os.makedirs(f"{vxlib.VERIF}/gen", exist_ok=True)
 path = f"{vxlib.VERIF}/gen/{unit}.rs"
 open(path, "w").write(g.text)
-r = verusrun.run_verus(path)
+r = verusrun.run_verus(path, seed=int(__import__('os').environ.get('S','0')))
 print("ok", r.ok, "verified", r.verified, "errors", r.errors, "wall", round(r.wall_s,1), "smt_ms", r.smt_ms)
 for f in r.failures: print("FAIL", f["kind"], f["fn"], f["line"], f["message"], "|", f["clause"]); print(f["rendered"])
 for u in r.undecided: print("UNDECIDED", u)
